@@ -1,0 +1,29 @@
+//go:build verif
+// +build verif
+
+// Contracts for deductive verification (govc, /verif). Comment-only file.
+
+package utils
+
+// The crypto client chosen for a public key is a function of the key bytes.
+//@ func github.com/xuperchain/xupercore/lib/crypto/client.CreateCryptoClientFromJSONPublicKey
+//@   noverify
+//@   pure
+
+// A signature identifies address ak only if the public key decodes, hashes to ak
+// and the ECDSA signature over data verifies under it. (Also used by C07.)
+//@ func VerifySign
+//@   property C11 C07
+//@   let xcc = client.CreateCryptoClientFromJSONPublicKey(bytes(si.PublicKey))
+//@   let key = xcc.GetEcdsaPublicKeyFromJsonStr(si.PublicKey)
+//@   ensures key_binds_address_and_data: result0 ==> client.CreateCryptoClientFromJSONPublicKey#1(bytes(si.PublicKey)) == nil && xcc.GetEcdsaPublicKeyFromJsonStr#1(si.PublicKey) == nil && xcc.VerifyAddressUsingPublicKey(ak, key) && xcc.VerifyECDSA(key, si.Sign, data)
+
+// Each node of the tree is evaluated by the validator of ITS rule on ITSELF, its
+// status is exactly that verdict, and the account is identified iff the root succeeds.
+//@ func validatePermTree
+//@   property C11
+//@   local pnode *ptree.PermNode
+//@   at ACLValidator.Validate assert node_evaluated_on_itself: $0 == pnode
+//@   at ACLValidatorFactory.GetACLValidator assert validator_of_node_rule: $0 == pnode.ACL.Pm.Rule
+//@   at fieldwrite.Status assert status_is_verdict: $0 == pnode && ($1 == 2 || $1 == 3) && (($1 == 2) == checkResult)
+//@   ensures root_verdict: result1 == nil ==> result0 == (root.Status == 2)
